@@ -455,12 +455,13 @@ def execute(kind, ntasks, actions, epilogue=False):
             extra = None
             if epilogue:
                 # let everything that can still flush do so: afterwards nobody may be left suspended
+                s.act([A_SETTLE])
                 if kind == K_FLOW:
                     s.act([A_RESUME])
                     s.act([A_SETTLE])
                 else:
                     for _ in range(64):
-                        if s.transport.get_write_buffer_size() == 0:
+                        if s.transport.get_write_buffer_size() == 0 or s.dead:
                             break
                         s.act([A_READY, 1 << 20])
                         s.act([A_SETTLE])
